@@ -15,6 +15,12 @@ static inline void cm_vec_push_back(struct cm_vec_size_t *v, size_t x) {
   v->a[v->n] = x;
   v->n++;
 }
+static inline void cm_vec_pop_back(struct cm_vec_size_t *v) {
+#ifndef CM_NATIVE
+  __CPROVER_assert(v->n > 0, "pop_back()/erase(end()-1) on an empty vector (undefined behaviour)");
+#endif
+  v->n--;
+}
 static inline size_t *cm_vec_back(struct cm_vec_size_t *v) { return &v->a[v->n - 1]; }
 static inline size_t cm_vec_size(const struct cm_vec_size_t *v) { return v->n; }
 #endif
